@@ -96,6 +96,58 @@ class FnView:
 _STMT_KINDS = (ast.Assign, ast.AnnAssign, ast.AugAssign, ast.Expr, ast.Return, ast.Raise, ast.Break, ast.Continue, ast.Delete, ast.Assert)
 
 
+def parent_stmt(e: ast.AST) -> ast.AST | None:
+    cur: ast.AST | None = e
+    while cur is not None and not isinstance(cur, ast.stmt):
+        cur = parent_of(cur)
+    return cur
+
+
+def local_move_ok(v: "FnView", st: ast.AST, was: str, now: str) -> bool:
+    """A plain assignment to one local (no call in it) moved *towards its uses*: same loops, same
+    undominated exits, every reviewed guard kept, and each added guard also holds wherever the value
+    it assigns may be read - in the cases in which it no longer runs, nothing reads what it would have
+    stored."""
+    if not (isinstance(st, (ast.Assign, ast.AnnAssign)) and getattr(st, "value", None) is not None):
+        return False
+    tg = st.targets if isinstance(st, ast.Assign) else [st.target]
+    if len(tg) != 1 or not isinstance(tg[0], ast.Name) or any(isinstance(x, (ast.Call, ast.NamedExpr, ast.Await, ast.Yield)) for x in ast.walk(st)):
+        return False
+    name = tg[0].id
+    try:
+        g0, l0, p0 = was.split(" | ")
+        g1, l1, p1 = now.split(" | ")
+    except ValueError:
+        return False
+    if l0 != l1 or p0 != p1:
+        return False
+    old = set(filter(None, g0[len("when "):].split(" ∧ ")))
+    new = set(filter(None, g1[len("when "):].split(" ∧ ")))
+    if not old <= new:
+        return False
+    added = new - old
+    # a closure reading the name could run anywhere
+    for f in ast.walk(v.fn.node):
+        if f is not v.fn.node and isinstance(f, (ast.FunctionDef, ast.AsyncFunctionDef, ast.Lambda)) and any(isinstance(x, ast.Name) and x.id == name for x in ast.walk(f)):
+            return False
+    IN = v.cfg.reaching_defs()
+    for n in v.cfg.nodes:
+        x = n.node
+        if x is None or x is st or isinstance(x, (ast.FunctionDef, ast.AsyncFunctionDef, ast.ClassDef)):
+            continue
+        if st not in IN.get(n, {}).get(name, ()):
+            continue
+        reads = [y for y in ast.walk(x) if isinstance(y, ast.Name) and y.id == name and isinstance(y.ctx, ast.Load)] if not isinstance(x, (ast.If, ast.While, ast.For, ast.AsyncFor, ast.Try, ast.With)) else []
+        if isinstance(x, (ast.For, ast.AsyncFor)):
+            reads = [y for y in ast.walk(x.iter) if isinstance(y, ast.Name) and y.id == name]
+        if not reads:
+            continue
+        have = fact_set(v.cfg.guards_at(reads[0]))
+        if not added <= have:
+            return False
+    return True
+
+
 def stmt_contexts(v: "FnView") -> dict[str, list[str]]:
     """Control context of every simple statement of the function, keyed by its normalised text: the
     atomic test outcomes that dominate it, the headers of the loops around it, and the exits of the
@@ -130,12 +182,13 @@ def stmt_contexts(v: "FnView") -> dict[str, list[str]]:
                 continue
             if local_only and isinstance(e, (ast.Return, ast.Raise)) and not any(isinstance(x, ast.Name) and x.id in assigned for x in ast.walk(e)):
                 continue
-            if local_only and isinstance(e, (ast.Break, ast.Continue)):
-                # the exit of a loop the statement is not in, which does not mention the assigned names
+            if isinstance(e, (ast.Break, ast.Continue)):
+                # the exit of a loop the statement is not in ends that loop, not the cases in which the
+                # statement runs (being before or after a whole loop is order, not case)
                 lp = parent_of(e)
                 while lp is not None and not isinstance(lp, (ast.For, ast.AsyncFor, ast.While)):
                     lp = parent_of(lp)
-                if lp is not None and not any(y is st for y in ast.walk(lp)) and not any(isinstance(x, ast.Name) and x.id in assigned for x in ast.walk(lp)):
+                if lp is not None and not any(y is st for y in ast.walk(lp)):
                     continue
             en = v.cfg.node_for(e)
             if en is None or en not in dom:
@@ -145,8 +198,10 @@ def stmt_contexts(v: "FnView") -> dict[str, list[str]]:
         # the exit condition of a `while` that is over says nothing about the cases in which a later
         # statement runs: every run that gets past the loop has it
         done = {id(x) for w in walk_own(fn) if isinstance(w, ast.While) and not any(y is st for y in ast.walk(w)) for x in ast.walk(w.test)}
-        g = [(a, o) for a, o in v.cfg.guards_at(st) if not (o is False and id(a) in done)]
-        d = "when " + " & ".join(sorted(fact_set(g))) + " | in " + " / ".join(loops) + " | not before " + " ; ".join(sorted(pre))
+        # what an `assert` states is presumed: it is no case distinction of the function
+        done |= {id(x) for w in walk_own(fn) if isinstance(w, ast.Assert) for x in ast.walk(w.test)}
+        g = [(a, o) for a, o in v.cfg.guards_at(st) if not isinstance(a, ast.Constant) and not ((o is False or isinstance(parent_stmt(a), ast.Assert)) and id(a) in done)]
+        d = "when " + " ∧ ".join(sorted(fact_set(g))) + " | in " + " / ".join(loops) + " | not before " + " ; ".join(sorted(pre))
         out.setdefault(" ".join(src(st).split()), []).append(d)
     return {k: sorted(x) for k, x in out.items()}
 
